@@ -41,6 +41,8 @@ SIB_KINDS = ["file", "file", "file", "dir", "symlink_input", "hardlink_input", "
 PRIORS = ["absent", "regular", "regular", "regular", "symlink", "hardlink"]
 MODES = ["default", "uip", "nouip", "nouip"]
 SIG_DELETE = "delete-sibling-clobbered"
+FAILS = [None, None, None, "symbols-resolved:error", "layout-done:error", "layout-done:panic", "output-created:error",
+         "sections-written:error", "output-flushed:panic", "output-written:error"]
 OLD_MTIME = 1_500_000_000
 
 
@@ -203,6 +205,9 @@ class C19(Check):
             "fork": st.booleans(),
             "prior": st.sampled_from(PRIORS),
             "side": side,
+            # the statement covers failing links too: an injected failure (WILD_VERIF_CRASH) before, while or
+            # after the output is written makes wild run its clean-up paths
+            "fail": st.sampled_from(FAILS),
         })
         sib = st.fixed_dictionaries({
             "pat": st.sampled_from(["stem", "stem", "stem", "dot", "bare", "deltemp", "deltemp"]),
@@ -320,6 +325,8 @@ class C19(Check):
                 env["WILD_WRITE_TRACE"] = "1"
             if "save" in sp:
                 env["WILD_SAVE_DIR"] = sp["save"]
+            if l.get("fail"):
+                env["WILD_VERIF_CRASH"] = l["fail"]
             cmds.append((l, args, env))
 
         results = [None] * len(cmds)
@@ -421,6 +428,10 @@ class C19(Check):
         for (l, args, env), r in zip(cmds, results):
             info["classes"].append(f"mode:{l['mode']}")
             info["classes"].append("rc0" if r.rc == 0 else "rc!=0")
+            if l.get("fail"):
+                if r.rc == 0 or "verif: injected" not in r.err:
+                    raise Inconclusive(f"injected failure {l['fail']} did not fire: rc={r.rc} {r.err[-200:]}")
+                info["classes"].append("fails-at:" + l["fail"] + ("+layout" if "layout" in side_paths(l) else ""))
             if effective_unlink_and_replace(l) and l["prior"] != "absent" and l["threads"] != 1:
                 info["classes"].append("rename-old-output-path-taken")
             if delete_temp(l) in sibs:
@@ -435,6 +446,7 @@ class C19(Check):
         info["key"] = case["stem"] + "|" + ";".join(
             f"{l['out']},{l['mode']},{'t1' if l['threads'] == 1 else 'tN'},{l['prior']},{int(l['shared'])},"
             f"{''.join(sorted(k[0] for k in side_paths(l) if not k.startswith('trace') or k == 'trace'))}"
+            f"{',' + l['fail'] if l.get('fail') else ''}"
             for l in links) + "|" + ",".join(f"{n}:{k}" for n, k in sorted(sibs.items()))
         return info
 
